@@ -9,7 +9,7 @@ from ..absint import Evaluator, Unsupported
 from ..flow import show, walk_term
 from ..model import fold_const
 from ..report import ob_ok, ob_fail, ob_undecided
-from .common import is_call, method_call, edge_attr, need, strip_wrappers
+from .common import is_call, method_call, edge_attr, need, strip_wrappers, strip_not, if_arms
 from . import tables
 
 MAX_PATHS = 20000
@@ -311,10 +311,12 @@ def emit_write_graph(repo, tier="quick"):
     mol = ("param", P[0])
     # the node being written: first assignment in the loop body from to_visit.pop()
     cur = None
+    cur_term = None
     for st in lp.body:
         if isinstance(st, ast.Assign) and isinstance(st.targets[0], ast.Name) and isinstance(st.value, ast.Call) and \
                 isinstance(st.value.func, ast.Attribute) and st.value.func.attr == "pop":
             cur = st.targets[0].id
+            cur_term = fl.canon(st.value, cfg.owner[id(st.value)])
             break
     need(cur is not None, "cannot identify the node being written (no `current = to_visit.pop()`)", fi, lp)
     ring_loops = [s for st in lp.body for s in ast.walk(st) if isinstance(s, ast.For)]
@@ -381,7 +383,8 @@ def emit_write_graph(repo, tier="quick"):
             return [("SYM", kind)]
         if isinstance(e, ast.Call) and isinstance(e.func, ast.Name):
             if e.func.id in ("format_atom", "format_node"):
-                ok = len(e.args) >= 2 and isinstance(e.args[1], ast.Name) and e.args[1].id == cur
+                ok = len(e.args) >= 2 and isinstance(e.args[1], ast.Name) and (e.args[1].id == cur or (
+                    id(e.args[1]) in cfg.owner and fl.canon(e.args[1], cfg.owner[id(e.args[1])]) == cur_term))
                 return [("NODE", e.func.id)] if ok else [("BAD", "node text of %s" % ast.unparse(e.args[1]) if len(e.args) > 1 else "?")]
             if e.func.id == "format_bonding":
                 return [("DESC",)]
@@ -430,11 +433,14 @@ def emit_write_graph(repo, tier="quick"):
     B_text = B_text[0]
     NEW_test = None
     for sub in ast.walk(rl):
-        if isinstance(sub, ast.If) and isinstance(sub.test, ast.Compare) and isinstance(sub.test.ops[0], (ast.NotIn, ast.In)):
-            NEW_test = sub
-            break
+        if isinstance(sub, ast.If):
+            t0, _ = strip_not(sub.test, True)
+            if isinstance(t0, ast.Compare) and isinstance(t0.ops[0], (ast.NotIn, ast.In)):
+                NEW_test = sub
+                break
     need(NEW_test is not None, "cannot find the new-marker / closing-marker split in the ring loop", fi, rl)
-    new_is_true_arm = isinstance(NEW_test.test.ops[0], ast.NotIn)
+    NEW_inner, NEW_tarm, NEW_farm = if_arms(NEW_test)
+    new_is_true_arm = isinstance(NEW_inner.ops[0], ast.NotIn)
 
     letters = {"SYMtree": "S", "SYMring": "Y", "SYMunknown": "U", "OPEN": "(", "CLOSE": ")", "NODE": "N", "DESC": "D", "MARK": "M", "RINGS": "R",
                "CONST": "c", "RESET": "!", "BAD": "?"}
@@ -481,7 +487,7 @@ def emit_write_graph(repo, tier="quick"):
     rfails = {}
     rn = 0
     for F, NEW, SR in itertools.product((False, True), (False, True), (False, True)):
-        pre = {fmt: F, ast.unparse(NEW_test.test): (NEW if new_is_true_arm else not NEW), SR_text: SR}
+        pre = {fmt: F, ast.unparse(NEW_inner): (NEW if new_is_true_arm else not NEW), SR_text: SR}
         w = Walker(fi, acc, classify, pre=pre)
         paths = w.run(rl.body)
         for atoms, word, env in paths:
@@ -524,7 +530,7 @@ def emit_write_graph(repo, tier="quick"):
     for sub in ast.walk(rl):
         if isinstance(sub, ast.Assign) and isinstance(sub.targets[0], ast.Subscript) and isinstance(sub.targets[0].value, ast.Name):
             marker_maps.add(sub.targets[0].value.id)
-    new_arm = NEW_test.body if new_is_true_arm else NEW_test.orelse
+    new_arm = NEW_tarm if new_is_true_arm else NEW_farm
     alloc = None
     for st in new_arm:
         if isinstance(st, ast.Assign) and isinstance(st.targets[0], ast.Name):
@@ -550,7 +556,7 @@ def emit_write_graph(repo, tier="quick"):
                             reason="the new ring marker is not chosen against the set of markers currently in use (the values of the ring -> marker map): "
                                    "two rings open at the same time can get the same marker")))
         # closing frees the marker: pop / del of the ring's entry in the closing arm
-        close_arm = NEW_test.orelse if new_is_true_arm else NEW_test.body
+        close_arm = NEW_farm if new_is_true_arm else NEW_tarm
         frees = any(isinstance(x, ast.Call) and isinstance(x.func, ast.Attribute) and x.func.attr == "pop" and isinstance(x.func.value, ast.Name)
                     and x.func.value.id in marker_maps for st in close_arm for x in ast.walk(st)) or \
             any(isinstance(x, ast.Delete) for st in close_arm for x in ast.walk(st))
